@@ -1172,6 +1172,13 @@ class PredFlow:
         return a if a == b else "T"
 
     def _joinv(self, a, b):
+        if a[0] == "V" or b[0] == "V":
+            # variant environments: a variant seen on one way only keeps the state it was stored under; if one way knows
+            # nothing about the local (("T","T") default), nothing is known after the join
+            if a[0] != "V" or b[0] != "V":
+                return ("T", "T")
+            da, db = dict(a[1]), dict(b[1])
+            return ("V", tuple(sorted((v, self._join(da.get(v, "B"), db.get(v, "B"))) for v in set(da) | set(db))))
         return (self._join(a[0], b[0]), self._join(a[1], b[1]))
 
     @staticmethod
@@ -1187,6 +1194,18 @@ class PredFlow:
     def _is_bool(self, l):
         return self.body.locals[l]["ty"] == "bool"
 
+    @staticmethod
+    def _refine_to(k, stored):
+        """State on the edge of a match arm for a variant that was stored under state `stored`: the edge is taken only on
+        ways on which that variant was stored, so what was known there holds (meet of the two)."""
+        if stored == "B" or k == "B":
+            return "B"
+        if stored == "T":
+            return k
+        if k == "T":
+            return stored
+        return k if k == stored else "B"
+
     def _transfer(self, b):
         body, sy = self.body, self.sy
         K = self.K[b]
@@ -1197,6 +1216,26 @@ class PredFlow:
                 continue
             l = st["p"]["l"]
             if not self._is_bool(l):
+                # enum-valued locals: which variant was stored under which state of the predicate ("decide, then act":
+                # `let route = if p { A } else { B }; match route { .. }`), so that a later match on the local refines P
+                rv = st["rv"]
+                key = ("v", l)
+                if rv["k"] == "agg" and rv.get("variant") and rv.get("agg") == "adt":
+                    env[key] = ("V", ((rv["variant"], K),))
+                elif rv["k"] == "use":
+                    q = rv["a"].get("move") or rv["a"].get("copy")
+                    if q is not None and not q.get("pr") and ("v", q["l"]) in env:
+                        env[key] = env[("v", q["l"])]
+                    else:
+                        env.pop(key, None)
+                elif rv["k"] == "discr":
+                    q = rv["p"]
+                    if not q.get("pr") and ("v", q["l"]) in env:
+                        env[("d", l)] = env[("v", q["l"])]
+                    else:
+                        env.pop(("d", l), None)
+                else:
+                    env.pop(key, None)
                 continue
             env[l] = self._bool_rv(st["rv"], env, K)
         t = body.term(b)
@@ -1211,6 +1250,21 @@ class PredFlow:
                 per_edge = lambda v: wf if v == 0 else wt
                 vals = [a["v"] for a in t["arms"]]
                 oth = wt if vals == [0] else wf if vals == [1] else "T"
+            elif dp is not None and not dp.get("pr") and isinstance(env.get(("d", dp["l"])), tuple) and env[("d", dp["l"])][0] == "V" and t.get("enum"):
+                # a match on an enum-valued local whose variants were stored under known states of the predicate
+                vmap = dict(env[("d", dp["l"])][1])
+                hit = set()
+                for a in t["arms"]:
+                    v = a.get("variant")
+                    hit.add(v)
+                    out.append((a["bb"], self._refine_to(K, vmap.get(v, "B")), env))
+                rest = [v for v in (t.get("all_variants") or []) if v not in hit]
+                ks = [vmap.get(v, "B") for v in rest]
+                ko = "B"
+                for k_ in ks:
+                    ko = self._join(ko, k_)
+                out.append((t["otherwise"], self._refine_to(K, ko) if rest else "B", env))
+                return out
             else:
                 subj = strip_sym(sy.operand(d))
                 if subj and subj[0] == "discr":
